@@ -921,6 +921,69 @@ fn k_scn(wakes: usize, also_waitable: bool, allow_cancel: bool) -> &'static str 
     how
 }
 
+/// The task body owns a value whose destructor wakes the task's *own* waker (the sender half
+/// of an in-task notify whose receiver is in the same task). Cancelling the task while it
+/// sleeps runs that destructor in the middle of cancellation: it must be a no-op.
+fn k4_scn(with_waitable: bool) -> &'static str {
+    struct WakeOnDrop(Rc<RefCell<Flag>>);
+    impl Drop for WakeOnDrop {
+        fn drop(&mut self) {
+            let w = self.0.borrow_mut().waker.take();
+            if let Some(w) = w {
+                w.wake();
+            }
+        }
+    }
+    let flag: Rc<RefCell<Flag>> = Rc::new(RefCell::new(Flag::default()));
+    let f2 = flag.clone();
+    with(|h| h.prefer_blocked = true);
+    driver::start_task(async move {
+        let _g = Guard::new();
+        let _notify_on_drop = WakeOnDrop(f2.clone());
+        let sleeper = poll_fn(|cx| {
+            let mut f = f2.borrow_mut();
+            f.polls += 1;
+            if f.set {
+                Poll::Ready(())
+            } else {
+                f.waker = Some(cx.waker().clone());
+                Poll::Pending
+            }
+        });
+        if with_waitable {
+            let mut imp = Imp::new(false, ResKind::None);
+            let p = imp.params(0x30);
+            futures::join!(sleeper, imp.call(p));
+        } else {
+            sleeper.await;
+        }
+    });
+    let f3 = flag.clone();
+    // Without `inter-task-wakeup` a wake from outside the task is documented as unsupported
+    // (it panics by design), so only the destructor's own wake is exercised there.
+    let mut externals: Vec<(String, driver::External)> = if !cfg!(feature = "itw") { vec![] } else { vec![(
+        "set-flag-and-wake".into(),
+        Box::new(move || {
+            let w = {
+                let mut f = f3.borrow_mut();
+                f.set = true;
+                f.waker.clone()
+            };
+            if let Some(w) = w {
+                w.wake_by_ref();
+            }
+            true
+        }),
+    )] };
+    let how = driver::run(&Opts { allow_cancel: true, ..Opts::default() }, &mut externals);
+    obs(format!("polls={}", flag.borrow().polls));
+    if how == "done" {
+        let guards = guest::guard_counts();
+        check("C22", "task:destructor-count", guards.iter().all(|c| *c == 1), || format!("destructors ran {guards:?} time(s) each (want exactly once)"));
+    }
+    how
+}
+
 /// Task B wakes sleeping task A from inside B's own callback (a channel send from one
 /// component task to another).
 fn k3_scn(b_yields: usize, allow_cancel: bool) -> &'static str {
@@ -1323,6 +1386,8 @@ pub fn catalogue() -> Vec<Scenario> {
         scn!("K2-wake-with-waitable", ["C23", "C22", "C18"], || k_scn(1, true, false)),
         scn!("K2-two-wakes-with-waitable", ["C23", "C22"], || k_scn(2, true, false)),
         scn!("K2-three-wakes-with-waitable", ["C23"], || k_scn(3, true, false)),
+        scn!("K4-destructor-wakes-own-task-on-cancel", ["C22", "C23"], || k4_scn(false)),
+        scn!("K4w-destructor-wakes-own-task-on-cancel-with-waitable", ["C22", "C23"], || k4_scn(true)),
         scn!("K3-wake-from-other-task", ["C23", "C22"], || k3_scn(1, false)),
         scn!("K3-wake-from-other-task-cancel", ["C23"], || k3_scn(2, true)),
         scn!("W5-blob-write_one", ["C19"], || {
@@ -1355,9 +1420,14 @@ pub fn catalogue() -> Vec<Scenario> {
         v.retain(|s| !s.name.contains("spawn"));
     }
     if !cfg!(feature = "itw") {
-        v.retain(|s| !s.name.starts_with('K'));
+        v.retain(|s| !s.name.starts_with('K') || s.name.starts_with("K4w"));
     }
     for s in v.iter_mut() {
+        if s.name.starts_with("K4w") && !cfg!(feature = "itw") {
+            // by design: once the import is done the task would sleep on a Rust-only event,
+            // which the runtime refuses without `inter-task-wakeup`
+            s.expected_panics = &["Rust task cannot sleep waiting only on Rust-originating events"];
+        }
         if s.name == "T1-immediate" || s.name == "B1-block_on-immediate" {
             s.allow_single_outcome = true;
         }
